@@ -496,6 +496,25 @@ theorem step_en (p : Params) (s : UState) (op : Op) (hop : ∀ k, op ≠ .get k)
     | snap => exact Or.inl ⟨rfl, rfl⟩
     | freq k => exact Or.inl ⟨rfl, rfl⟩
 
+/-- An operation other than `get` and `insert` leaves the sketch and its flag alone. -/
+theorem step_same (p : Params) (s : UState) (op : Op) (hop : ∀ k, op ≠ .get k)
+    (hins : ∀ k v, op ≠ .ins k v) : SkSame s (step p s op).1 := by
+  rw [step_fst]
+  split
+  · exact SkSame.refl s
+  · cases op with
+    | ins k v => exact absurd rfl (hins k v)
+    | get k => exact absurd rfl (hop k)
+    | has k => exact containsKey_sk p s k
+    | iter => exact SkSame.refl s
+    | inv k => exact invalidate_sk p s k
+    | invAll => exact SkSame.refl s
+    | invIf pr => exact invalidateEntriesIf_sk p s pr
+    | sync => exact SkSame.refl s
+    | adv d => exact ⟨rfl, rfl⟩
+    | snap => exact SkSame.refl s
+    | freq k => exact SkSame.refl s
+
 /-- `get` records its key exactly once (hit, miss or expired alike), after its maintenance. -/
 theorem step_get (p : Params) (s : UState) (k : Nat) (hf : s.fault = none) :
     (step p s (.get k)).1.sk = Sketch.incr1 p.q.d5 (maintain p s).sk (p.hash k) ∧
@@ -828,6 +847,66 @@ theorem step_drain (p : Params) {s : SState} (h : QInv s) (op : Op) :
     | adv d => exact Drain.none [] (List.append_nil _).symm ⟨rfl, rfl⟩
     | snap => exact Drain.refl _ s
     | freq k => exact Drain.refl _ s
+
+theorem newReads_of_not_get (p : Params) (s : SState) (op : Op) (hop : ∀ k, op ≠ .get k) :
+    newReads p s op = [] := by
+  unfold newReads
+  split
+  · rfl
+  · cases op <;> first | rfl | exact absurd rfl (hop _)
+
+theorem newReads_get (p : Params) (s : SState) (k : Nat) (hf : s.fault = none) :
+    newReads p s (.get k) = [readOf p s k] := by
+  unfold newReads
+  rw [hf]
+  rfl
+
+/-- The operations that neither queue anything nor run maintenance leave the sketch and the
+read queue exactly as they are. -/
+theorem step_pure (p : Params) (s : SState) (op : Op)
+    (hop : ∀ k, op ≠ .get k) (hins : ∀ k v, op ≠ .ins k v) (hinv : ∀ k, op ≠ .inv k)
+    (hsync : op ≠ .sync) :
+    (step p s op).1.sk = s.sk ∧ (step p s op).1.skOn = s.skOn ∧
+    (step p s op).1.readQ = s.readQ := by
+  rw [step_fst]
+  split
+  · exact ⟨rfl, rfl, rfl⟩
+  · cases op with
+    | ins k v => exact absurd rfl (hins k v)
+    | get k => exact absurd rfl (hop k)
+    | inv k => exact absurd rfl (hinv k)
+    | sync => exact absurd rfl hsync
+    | _ => exact ⟨rfl, rfl, rfl⟩
+
+/-- Single-threaded use never raises `hang`, so the state after a history has it only if the
+initial state had. -/
+theorem stateAfter_hang (p : Params) (h : List Op) : ∀ {s : SState}, QInv s →
+    (stateAfter p s h).fault = some Fault.hang → s.fault = some Fault.hang := by
+  induction h with
+  | nil => intro s _ hf; exact hf
+  | cons op rest ih =>
+    intro s hs hf
+    exact (step_qinv p hs op).2 (ih (step_qinv p hs op).1 hf)
+
+theorem finalState_eq_stateAfter (p : Params) (h : List Op) :
+    ∀ (s : SState), Nodes.finalState p s h = stateAfter p s h := by
+  induction h with
+  | nil => intro s; rfl
+  | cons op rest ih => intro s; exact ih _
+
+/-- Reachable states of the current code (no quirks, documented sketch limit): no fault, and
+the sketch predicate holds. -/
+theorem reachable_ok {P : Sketch → Prop} (L : SketchLaws P) {p : Params} (hq : NoQuirks p)
+    (hsm : SmallSketch p) (h : List Op) :
+    (stateAfter p {} h).fault = none ∧ Nodes.SkOK P (stateAfter p {} h) ∧
+    QInv (stateAfter p {} h) := by
+  have h1 := Nodes.finalState_core L hq hsm h {} (Nodes.init_inv L).toTopCore (Or.inl rfl)
+  rw [finalState_eq_stateAfter] at h1
+  refine ⟨?_, h1.1.sk, stateAfter_qinv p h qinv_init⟩
+  rcases h1.2 with hf | hf
+  · exact hf
+  · have := stateAfter_hang p h qinv_init hf
+    cases this
 
 end SkF
 end Sync
